@@ -33,3 +33,25 @@ fn c15_empty_directive_spellings() {
     // "for every other request type there is never a policy"
     assert_eq!(e.get_csp_directives(&Request::new("https://example.com/a.js", "https://example.com/", "script").unwrap()), None);
 }
+
+/// OBL C15.witness.tagged_csp_rules
+#[test]
+fn c15_tagged_csp_rules_in_one_bucket() {
+    // "all matching ACTIVE csp rules": an inactive (tag not enabled) rule neither contributes nor hides the others of its bucket
+    let rules = ["||example.com^$csp=a-src 'none',tag=t1", "||example.com^$csp=b-src 'none',tag=t2", "||example.com^$csp=c-src 'none',tag=t3", "||example.com^$csp=d-src 'none'",
+                 "@@||example.com/x^$csp=d-src 'none',tag=t4"];
+    for optimize in [false, true] {
+        let mut e = Engine::from_rules_parametrised(rules, ParseOptions::default(), true, optimize);
+        let r = Request::new("https://example.com/", "https://example.com/", "document").unwrap();
+        let rx = Request::new("https://example.com/x/", "https://example.com/", "document").unwrap();
+        let set = |v: &[&str]| -> HashSet<String> { v.iter().map(|s| format!("{s}-src 'none'")).collect() };
+        assert_eq!(dirs(e.get_csp_directives(&r)), set(&["d"]));
+        for (tags, want) in [(vec!["t1"], vec!["a", "d"]), (vec!["t2"], vec!["b", "d"]), (vec!["t3"], vec!["c", "d"]), (vec!["t1", "t3"], vec!["a", "c", "d"]), (vec!["t1", "t2", "t3"], vec!["a", "b", "c", "d"])] {
+            e.use_tags(&tags);
+            assert_eq!(dirs(e.get_csp_directives(&r)), set(&want), "optimize={optimize} tags={tags:?}");
+            assert_eq!(dirs(e.get_csp_directives(&rx)), set(&want), "optimize={optimize} tags={tags:?}: the exception's tag is not enabled");
+        }
+        e.use_tags(&["t1", "t4"]);
+        assert_eq!(dirs(e.get_csp_directives(&rx)), set(&["a"]), "optimize={optimize}: enabled exception removes its directive");
+    }
+}
